@@ -7,17 +7,17 @@ real import system and sys.path = the tree's roots + the stdlib:
 * programs: the issuing module's source is replaced *in the loader* (the file on disk is not
   touched) by `try: <import statement> except BaseException as e: _jv_exc = e`, the module is
   imported by its dotted name (or exec'd as __main__ for the script outside sys.path) and the
-  objects bound / the modules selected are described by file.  Every program is run under two
-  import orders, each from a state where no module of the tree is in sys.modules:
+  objects bound / the modules selected are described by file.  Every program is run under four
+  import orders, starting from a state where no module of the tree is in sys.modules:
     A  nothing of the tree imported before;
     B  every other importable dotted name of the tree imported before;
     C  like A, then every importable dotted name of the tree is imported and the statement is
        executed a second time in the finished module (what a function-level import or a
        reload would see: the module itself and all others are complete attributes of their
        packages);
-    D  like C, but before the second execution the import system's side effect "the package
-       gets its imported submodule as an attribute" is undone for every module of the tree
-       (each package has again exactly what its own code bound).
+    D  like C, but before the statement is executed again the import system's side effect
+       "the package gets its imported submodule as an attribute" is undone for every module
+       of the tree (each package has again exactly what its own code bound).
   The parent only holds jedi to one answer when A, B, C and D agree (otherwise the answer
   depends on import-order side effects and any of them is accepted).
 
@@ -43,6 +43,23 @@ def _patched_get_data(self, path, _orig=importlib.machinery.SourceFileLoader.get
 
 
 importlib.machinery.SourceFileLoader.get_data = _patched_get_data
+_CODE = {}
+
+
+def _compile(data, path):
+    """compile() memoised on (source, file name): same text, same file -> same code object"""
+    key = (bytes(data) if not isinstance(data, str) else data, path)
+    code = _CODE.get(key)
+    if code is None:
+        code = _CODE[key] = compile(data, path, 'exec', dont_inherit=True)
+    return code
+
+
+def _patched_source_to_code(self, data, path, *, _optimize=-1):
+    return _compile(data, path)
+
+
+importlib.machinery.SourceFileLoader.source_to_code = _patched_source_to_code
 sys.dont_write_bytecode = True
 BASE_MODULES = None
 
@@ -113,44 +130,42 @@ def import_desc(name):
         return ['error', type(e).__name__]
 
 
-def run_program(prog, modname, preimport, again=None):
-    """-> {'exc': type name or None, 'probes': [desc...]} in the current (reset) state."""
-    for n in preimport:
-        if modname is not None and (n == modname or n.startswith(modname + '.')):
+def _import_all(names, modname=None, skip_own=False):
+    for n in names:
+        if skip_own and modname is not None and (n == modname or n.startswith(modname + '.')):
             continue
         try:
             importlib.import_module(n)
         except BaseException:
             pass
+
+
+def _first_execution(prog, modname):
+    """Import the issuing module (statement runs as its body) -> (namespace, package)."""
     src = prog['src']
     if modname is None:
         ns = {'__name__': '__main__', '__file__': prog['file'], '__package__': None,
               '__spec__': None, '__builtins__': __builtins__}
-        exec(compile(src, prog['file'], 'exec'), ns)
-        package = None
-    else:
-        _override[prog['file']] = src
-        try:
-            mod = importlib.import_module(modname)
-        finally:
-            _override.clear()
-        if getattr(mod, '__file__', None) != prog['file']:
-            return {'harness': 'enclosing module %s is %r' % (modname, getattr(mod, '__file__', None))}
-        ns = mod.__dict__
-        package = mod.__package__
-    if again is not None:
-        # the same statement executed once more after the issuing module finished importing
-        if again == 'stripped':
-            strip_submodule_attributes()
-        else:
-            for n in again:
-                try:
-                    importlib.import_module(n)
-                except BaseException:
-                    pass
-        for k in [k for k in ns if not (k.startswith('__') and k.endswith('__'))]:
-            del ns[k]
-        exec(compile(src, prog['file'], 'exec'), ns)
+        exec(_compile(src, prog['file']), ns)
+        return ns, None
+    _override[prog['file']] = src
+    try:
+        mod = importlib.import_module(modname)
+    finally:
+        _override.clear()
+    if getattr(mod, '__file__', None) != prog['file']:
+        raise RuntimeError('enclosing module %s is %r' % (modname, getattr(mod, '__file__', None)))
+    return mod.__dict__, mod.__package__
+
+
+def _again(prog, ns):
+    """The same statement executed once more in the finished module."""
+    for k in [k for k in ns if not (k.startswith('__') and k.endswith('__'))]:
+        del ns[k]
+    exec(_compile(prog['src'], prog['file']), ns)
+
+
+def _record(prog, ns, package):
     exc = ns.get('_jv_exc')
     out = []
     for pr in prog['probes']:
@@ -173,6 +188,28 @@ def run_program(prog, modname, preimport, again=None):
             'msg': None if exc is None else str(exc)[:200], 'probes': out}
 
 
+def run_program(prog, modname, roots, pre):
+    """-> {'A':..., 'B':..., 'C':..., 'D':...} (see module docstring)"""
+    r = {}
+    reset(roots)
+    ns, package = _first_execution(prog, modname)
+    r['A'] = _record(prog, ns, package)
+    _import_all(pre)
+    _again(prog, ns)
+    r['C'] = _record(prog, ns, package)
+    strip_submodule_attributes()
+    _again(prog, ns)
+    r['D'] = _record(prog, ns, package)
+    reset(roots)
+    _import_all(pre, modname, skip_own=True)
+    ns, package = _first_execution(prog, modname)
+    r['B'] = _record(prog, ns, package)
+    for c in 'BCD':     # compact output: conditions that agree with A are left out
+        if r[c] == r['A']:
+            del r[c]
+    return r
+
+
 def do_tree(tree):
     roots = tree['sys_path']
     res = {'names': {}, 'programs': {}}
@@ -193,18 +230,15 @@ def do_tree(tree):
             modnames = valid.get(prog['file'], [])
         per = {}
         for mn in modnames:
-            r = {}
-            for cond, pi, again in (('A', [], None), ('B', pre, None), ('C', [], pre),
-                                    ('D', [], 'stripped')):
-                reset(roots)
-                try:
-                    r[cond] = run_program(prog, mn, pi, again=again)
-                except BaseException as e:
-                    import traceback
-                    r[cond] = {'harness': traceback.format_exc()[-800:]}
+            try:
+                r = run_program(prog, mn, roots, pre)
+            except BaseException:
+                import traceback
+                r = {c: {'harness': traceback.format_exc()[-800:]} for c in 'ABCD'}
             per[mn or '__main__'] = r
         res['programs'][prog['pid']] = per
     reset([], new_tree=True)
+    _CODE.clear()
     return res
 
 
